@@ -67,7 +67,17 @@ var avoid = []string{"C07-exclusive-bounds-as-numbers", "C07-uint32-documented-a
 func TestContract(t *testing.T) {
 	n := rt.EnvInt("VERIF_CHECKS", 24)
 	seed := rt.EnvInt("VERIF_SEED", 1)
-	sess, built := rt.Prepare(t, "c14", rt.Options{Profile: profile(), N: n, Seed: seed, AvoidIfOpen: avoid, Extra: []*m.Design{gen.ParamMatrix(), gen.ViewMatrix(), gen.MapParamsMatrix(), gen.ValidationMatrix()}})
+	// open finding: bounds written in the Param mapping of an alias-typed attribute are enforced but not documented
+	strip := func(d *m.Design) {
+		if kf.Open("C14-param-mapping-validation-on-alias-not-documented") {
+			for i := gen.StripAliasMappingBounds(d); i > 0; i-- {
+				stats.Excluded("C14-param-mapping-validation-on-alias-not-documented")
+			}
+		}
+	}
+	vm := gen.ValidationMatrix()
+	strip(vm)
+	sess, built := rt.Prepare(t, "c14", rt.Options{Profile: profile(), N: n, Seed: seed, AvoidIfOpen: avoid, Tweak: strip, Extra: []*m.Design{gen.ParamMatrix(), gen.ViewMatrix(), gen.MapParamsMatrix(), vm}})
 	defer sess.Close()
 	defer rt.CloseAll(built)
 	if len(built) == 0 {
